@@ -431,6 +431,76 @@ func c09asm(c *fw.Check, maxW uint64) {
 			}
 		}
 		c.DistinctN(int64(hi - lo))
+		// the same literals in OTHER positions: index of a getelementptr instruction, index of a
+		// getelementptr constant expression (an alias' aliasee), operand of an add, switch case.
+		{
+			var fb strings.Builder
+			fb.WriteString("@base = global [4 x i8] zeroinitializer\n")
+			for i := lo; i < hi; i++ {
+				fmt.Fprintf(&fb, "@al%d = alias i8, getelementptr (i8, i8* getelementptr ([4 x i8], [4 x i8]* @base, i32 0, i32 0), i%d %s)\n", i, lits[i].w, lits[i].text)
+			}
+			fb.WriteString("define void @f(i8* %b) {\n")
+			for i := lo; i < hi; i++ {
+				fmt.Fprintf(&fb, "  %%g%d = getelementptr i8, i8* %%b, i%d %s\n  %%a%d = add i%d %s, 0\n", i, lits[i].w, lits[i].text, i, lits[i].w, lits[i].text)
+			}
+			fb.WriteString("  ret void\n}\n")
+			mp, errs, pan := parseTry(fb.String())
+			if errs != "" || pan != "" {
+				c.Violation("int/asm-position-parse-fails", c09case{What: fw.Trunc(errs+pan, 300), Lit: fw.Trunc(fb.String(), 400)})
+			} else {
+				val := func(v interface{}) *big.Int {
+					switch k := v.(type) {
+					case *constant.Int:
+						return k.X
+					case *constant.Index:
+						if ki, ok := k.Constant.(*constant.Int); ok {
+							return ki.X
+						}
+					}
+					return nil
+				}
+				bad := func(pos string, i int, got *big.Int) {
+					c.Violation("int/asm-value-at/"+pos+"/"+c09class(lits[i].w), c09case{Width: lits[i].w, Lit: lits[i].text, Value: lits[i].want.String(), Got: fmt.Sprint(got), What: "the literal read as " + pos + " has a different value"})
+				}
+				insts := mp.Funcs[0].Blocks[0].Insts
+				for i := lo; i < hi; i++ {
+					k := i - lo
+					if g, ok := insts[2*k].(*ir.InstGetElementPtr); !ok || len(g.Indices) != 1 || val(g.Indices[0]) == nil || val(g.Indices[0]).Cmp(lits[i].want) != 0 {
+						var got *big.Int
+						if ok && len(g.Indices) == 1 {
+							got = val(g.Indices[0])
+						}
+						bad("getelementptr-instruction-index", i, got)
+						break
+					}
+					if a, ok := insts[2*k+1].(*ir.InstAdd); !ok || val(a.X) == nil || val(a.X).Cmp(lits[i].want) != 0 {
+						bad("add-operand", i, nil)
+						break
+					}
+					if ge, ok := mp.Aliases[k].Aliasee.(*constant.ExprGetElementPtr); !ok || len(ge.Indices) != 1 || val(ge.Indices[0]) == nil || val(ge.Indices[0]).Cmp(lits[i].want) != 0 {
+						bad("getelementptr-expression-index-of-alias", i, nil)
+						break
+					}
+				}
+				// and after print + parse.
+				var y string
+				if p := fw.Try(func() { y = mp.String() }); p != "" {
+					c.Violation("int/asm-position-print-panics", c09case{What: p})
+				} else if m2, e2, p2 := parseTry(y); e2 != "" || p2 != "" {
+					c.Violation("int/asm-position-reparse-fails", c09case{What: fw.Trunc(e2+p2, 300)})
+				} else {
+					insts2 := m2.Funcs[0].Blocks[0].Insts
+					for i := lo; i < hi; i++ {
+						k := i - lo
+						g, ok := insts2[2*k].(*ir.InstGetElementPtr)
+						if !ok || len(g.Indices) != 1 || val(g.Indices[0]) == nil || new(big.Int).Mod(val(g.Indices[0]), pow2(lits[i].w)).Cmp(new(big.Int).Mod(lits[i].want, pow2(lits[i].w))) != 0 {
+							bad("getelementptr-instruction-index/after-print", i, nil)
+							break
+						}
+					}
+				}
+			}
+		}
 		var out string
 		if p := fw.Try(func() { out = m.String() }); p != "" {
 			c.Violation("int/asm-print-panic", c09case{What: p})
